@@ -317,6 +317,10 @@ class WalkRun:
         if rng.random() > cfg['p_act']:
             return {'a': 'none'}
         a = rng.choice(cfg['acts'])
+        if g.parent is not None and isinstance(g.parent.a, ast.arguments) and a in ('remove_next', 'remove_prev', 'replace_next', 'replace_prev'):
+            # single parameters cannot be removed / replaced by node operations (refused by design): go through the
+            # arguments node's slice interface instead
+            a = {'remove_next': 'slice_del_next', 'remove_prev': 'slice_del_prev', 'replace_next': 'slice_put_next', 'replace_prev': 'slice_put_prev'}[a]
         act = {'a': a}
         if a == 'send_true' and not entering:
             return {'a': 'none'}  # on a leaving yield send(True) means 'walk again' (documented): not used
@@ -382,10 +386,8 @@ class WalkRun:
         if par is None or pf is None or pf.idx is None or g is self.start:
             return None
         if isinstance(par.a, ast.arguments):
-            try:
-                sibs = [x.a for x in par._all]
-            except Exception:
-                return None
+            pa = par.a  # the arguments node's own slice interface indexes the parameters in source order
+            sibs = [*pa.posonlyargs, *pa.args, *([pa.vararg] if pa.vararg else []), *pa.kwonlyargs, *([pa.kwarg] if pa.kwarg else [])]
             field = None
         else:
             sibs = getattr(par.a, pf.name, None)
